@@ -95,7 +95,8 @@ def parseOp (ws : List String) : Option Op :=
 def showRet : Ret → String
   | .ok b => b01 b
   | .err => "err"
-  | .items l => "[" ++ joinWith "," (l.map fun i => s!"{i.key}:{showVal i.val}") ++ "]"
+  -- a range yields `GetCurrentValue()`, which turns a nil `*Value` into the zero int
+  | .items l => "[" ++ joinWith "," (l.map fun i => s!"{i.key}:{i.val}") ++ "]"
 
 def step (s : St) (ws : List String) : St × String :=
   if s.dead then (s, "dead") else
